@@ -260,7 +260,8 @@ def encode(op, mode):
         import scipy.sparse
         M = op.matrix.toarray() if scipy.sparse.isspmatrix(op.matrix) else np.asarray(op.matrix)
         if op.domain.ndim != 1:
-            raise Unsupported('MatrixOperator on N-d domain')
+            return '(Leaf (LMatrixAx %s %s %s %d%%nat %s))' % (W(op.domain), W(op.range), nats(op.domain.shape),
+                                                             op.axis, vecs(M.tolist(), mode))
         return '(Leaf (LMatrix %s %s %s))' % (W(op.domain), W(op.range), vecs(M.tolist(), mode))
     if t is TO.SamplingOperator:
         cv = getattr(op.domain, 'cell_volume', 1.0)
@@ -501,6 +502,21 @@ def builtin_ops(rng, tier):
             yield 'SamplingOperator-point_eval', '2d-' + kind, odl.SamplingOperator(sp, pts)
             yield 'SamplingOperator-integrate', '2d-' + kind, odl.SamplingOperator(sp, pts, 'integrate')
             yield 'WeightedSumSamplingOperator-dirac', '2d-' + kind, odl.WeightedSumSamplingOperator(sp, pts, 'dirac')
+        # N-d MatrixOperator along an axis, sparse matrices
+        import scipy.sparse
+        for kind in ('unweighted', 'const', 'complex-unweighted'):
+            shp = (rng.randint(1, 3), rng.randint(2, 3), rng.randint(1, 2))[:rng.choice([2, 3])]
+            dt = complex if kind.startswith('complex') else float
+            sp = odl.tensor_space(shp, dtype=dt) if 'unweighted' in kind else odl.tensor_space(shp, dtype=dt, weighting=2.0)
+            for ax in range(len(shp)):
+                M = np.array([[float(rng.randint(-2, 2)) for _ in range(shp[ax])] for _ in range(rng.randint(1, 3))])
+                if dt is complex:
+                    M = M + 1j * np.array([[float(rng.randint(-1, 1)) for _ in range(shp[ax])] for _ in range(M.shape[0])])
+                yield 'MatrixOperator-axis%d' % ax, '%dd-' % len(shp) + kind, odl.MatrixOperator(M, domain=sp, axis=ax)
+        Ms = scipy.sparse.coo_matrix(np.array([[1.0, 0, 2], [0, -1, 0]]))
+        yield 'MatrixOperator-sparse', 'unweighted', odl.MatrixOperator(Ms)
+        yield 'MatrixOperator-sparse', 'array', odl.MatrixOperator(Ms, domain=odl.rn(3, weighting=[1, 2, 3]),
+                                                                     range=odl.rn(2, weighting=[1, 2]))
         # product spaces
         for cplx in (False, True):
             for pk in ('none', 'const', 'array'):
@@ -546,6 +562,12 @@ def builtin_ops(rng, tier):
                     if p in ('constant', 'symmetric', 'symmetric_adjoint', 'periodic', 'order0', 'order0_adjoint') \
                             and m == 'forward':
                         yield 'Laplacian', kind + '-' + p, odl.Laplacian(sp, pad_mode=p)
+                    if kind == 'discr' and rng.random() < 0.5:
+                        n_ = rng.randint(lo, 4)
+                        csp = odl.uniform_discr(0, n_ * dxs[0], n_, dtype=complex)
+                        yield 'PartialDerivative', 'complex-discr-' + m + '-' + p, odl.PartialDerivative(
+                            csp, 0, method=m, pad_mode=p)
+                        yield 'Gradient', 'complex-discr-' + m + '-' + p, odl.Gradient(csp, method=m, pad_mode=p)
         # real <-> complex
         for kind in ('unweighted', 'const', 'array', 'discr', 'discr_bdry'):
             n = rng.randint(2, 3)
@@ -570,7 +592,7 @@ def _leaf_pool(rng, spaces, cplx):
             return odl.ScalingOperator(dom, rscalar(rng, cplx))
         if dom is ran and ch == 1:
             return odl.MultiplyOperator(rvec(rng, dom))
-        if dom is ran and ch == 2 and isinstance(dom, odl.DiscretizedSpace) and dom.size >= 2 and not cplx:
+        if dom is ran and ch == 2 and isinstance(dom, odl.DiscretizedSpace) and dom.size >= 2:
             return odl.PartialDerivative(dom, 0, method=rng.choice(list(TFD.METH)),
                                          pad_mode=rng.choice(['constant', 'symmetric', 'periodic', 'order0']))
         if dom is ran and ch == 3:
